@@ -1,0 +1,19 @@
+//! Verification hook (only compiled with `--cfg libp2p_verif`): public access to the private
+//! `AsServer::filter_valid_addrs` (the function that decides which addresses an AutoNAT v1
+//! server dials back). Declared as a child module of `v1::behaviour::as_server`; the wrapper is
+//! an inherent associated function of the public `Behaviour` so that it is reachable from
+//! outside the crate. The code that runs is the production code.
+
+use libp2p_core::Multiaddr;
+use libp2p_identity::PeerId;
+
+impl crate::v1::Behaviour {
+    #[doc(hidden)]
+    pub fn verif_filter_valid_addrs(
+        peer: PeerId,
+        demanded: Vec<Multiaddr>,
+        observed_remote_at: &Multiaddr,
+    ) -> Vec<Multiaddr> {
+        super::AsServer::filter_valid_addrs(peer, demanded, observed_remote_at)
+    }
+}
